@@ -184,8 +184,8 @@ Theorem C10_sort_default_by_key :
       /\ map b_key (rp_blocks (show_text F E o st)) = map fst (filter (shown (o_stripzeros o)) order).
 Proof. exact sort_by_key. Qed.
 
-(* summarize adds one total per function - every function when stripzeros is off, in the order
-   of the blocks - and nothing when off *)
+(* summarize adds one total per function to be shown - every function when stripzeros is off,
+   with it those with total hits <> 0 - in the order of the blocks, and nothing when off *)
 Theorem C10_summarize :
   forall (F : formatter) (E : env) (o : options) (st : stats),
     NoDup (map fst st) ->
@@ -194,32 +194,19 @@ Theorem C10_summarize :
         NoDup (map fst (rp_summary (show_text F E o st)))
         /\ (forall k tm, In (k, tm) st ->
               (In (k, f_summary F (total_time tm)) (rp_summary (show_text F E o st))
-               <-> (o_stripzeros o = false \/ f_truthy F (total_time tm) = true)))
+               <-> (o_stripzeros o = false \/ total_hits tm <> 0)))
         /\ (o_stripzeros o = false ->
               map fst (rp_summary (show_text F E o st)) = map fst (stats_order (o_sort o) st))).
 Proof. exact summarize_one_per_function. Qed.
 
-(* The full statement "under stripzeros the summary lists exactly the functions whose details
-   are shown" is FALSE of the faithful model: show_text filters the summary on total TIME and
-   the details on total HITS.  Witness: a function hit 1234567890 times in 0 timer units. *)
-Theorem C10_skipzero_summary_refuted :
-  exists (st : stats) (k : key) (tm : list timing) (unit : Q) (E : env) (o : options),
-    NoDup (map fst st) /\ In (k, tm) st /\ NoDup (map t_line tm)
-    /\ (forall t, In t tm -> 1 <= t_hits t /\ 0 <= t_time t)
-    /\ o_stripzeros o = true /\ o_summarize o = true /\ o_details o = true
-    /\ 0 < total_hits tm
-    /\ In k (map b_key (rp_blocks (show_text_py unit None E o st)))
-    /\ ~ In k (map fst (rp_summary (show_text_py unit None E o st))).
-Proof. exact skipzero_summary_witness. Qed.
-
-(* what does hold: where "time is non-zero" coincides with "hits are non-zero" the summary has
-   exactly one line per displayed function, in the same order *)
-Theorem C10_skipzero_summary_partial :
+(* under every option combination - stripzeros included - the summary lists exactly the
+   functions whose details are shown, in the same order (the former C10_skipzero_summary_refuted:
+   until /repo commit 49eff24 the summary was filtered on total time, the details on total hits) *)
+Theorem C10_skipzero_summary_matches_details :
   forall (F : formatter) (E : env) (o : options) (st : stats),
     o_details o = true -> o_summarize o = true ->
-    (forall k tm, In (k, tm) st -> f_truthy F (total_time tm) = negb (total_hits tm =? 0)) ->
     map fst (rp_summary (show_text F E o st)) = map b_key (rp_blocks (show_text F E o st)).
-Proof. exact skipzero_summary_agree_if. Qed.
+Proof. exact summary_matches_details. Qed.
 
 (* the hypotheses are satisfiable, and this is what the model prints for a two-function report *)
 Theorem C10_nonvacuous :
@@ -241,5 +228,6 @@ Theorem C10_nonvacuous :
       "==============================================================";
       "     4                                           def slow(x):";
       "     5         3       7000.0   2333.3    100.0      return x + 1"; "";
+      "  0.00 seconds - zero.py:1 - fast";
       "  0.01 seconds - zero.py:4 - slow"].
 Proof. exact example_report. Qed.
